@@ -31,7 +31,8 @@ type C01Scn struct {
 	Events     []C01Event `json:"events"`
 	InitWaitMs int        `json:"initwait"`
 	IdleMs     int        `json:"idle"`
-	RouteMs    int        `json:"route_ms,omitempty"` // route-update period (default 250 ms); short periods + long InitWaitMs = nodes that have sent hundreds of updates before the first event
+	IdleSlow   []int      `json:"idle_slow,omitempty"` // nodes whose idle limit is four times IdleMs: the two ends of a dead session give up at different times
+	RouteMs    int        `json:"route_ms,omitempty"`  // route-update period (default 250 ms); short periods + long InitWaitMs = nodes that have sent hundreds of updates before the first event
 }
 
 func nodeName(i int) string { return fmt.Sprintf("n%d", i) }
@@ -188,6 +189,14 @@ func execC01(b []byte) vx.Verdict {
 	}
 	R := opts.RouteUpdate
 	m := vx.NewMesh(opts)
+	maxIdle := opts.MaxIdle
+	if len(s.IdleSlow) > 0 {
+		m.IdleByNode = map[string]time.Duration{}
+		for _, i := range s.IdleSlow {
+			m.IdleByNode[nodeName(i%s.N)] = 4 * opts.MaxIdle
+		}
+		maxIdle = 4 * opts.MaxIdle
+	}
 	t0 := time.Now()
 	agedRestart := false
 	defer m.Close()
@@ -225,6 +234,7 @@ func execC01(b []byte) vx.Verdict {
 	time.Sleep(time.Duration(s.InitWaitMs) * time.Millisecond)
 	labels := []string{fmt.Sprintf("n=%d", s.N)}
 	sawSilent := false
+	var silentAt time.Time
 	for _, ev := range s.Events {
 		time.Sleep(time.Duration(ev.GapMs) * time.Millisecond)
 		switch ev.Kind {
@@ -242,6 +252,7 @@ func execC01(b []byte) vx.Verdict {
 				if l.IsUp() {
 					l.SetSilent(true)
 					sawSilent = true
+					silentAt = time.Now()
 				}
 			}
 		case "nodeStop":
@@ -270,11 +281,18 @@ func execC01(b []byte) vx.Verdict {
 		}
 		labels = append(labels, "ev:"+ev.Kind)
 	}
+	if sawSilent {
+		// a silent failure changes nothing until the idle limits strike (checked every 5 s by each node): judging before that would
+		// compare the still untouched tables with an expectation they happen to meet
+		if d := time.Until(silentAt.Add(maxIdle + 6500*time.Millisecond)); d > 0 {
+			time.Sleep(d)
+		}
+	}
 	live, edges := graph()
 	exp := expectedTables(live, edges)
 	deadline := 40*R + 3*time.Second
 	if sawSilent {
-		deadline += opts.MaxIdle + 12*time.Second
+		deadline += maxIdle + 12*time.Second
 	}
 	start := time.Now()
 	var last string
@@ -306,6 +324,28 @@ func execC01(b []byte) vx.Verdict {
 			}
 		}
 		return vx.Violation("converge", "C01/no-convergence", "after %v: %s (live %v edges %v; connections each node reports:%s)", time.Since(start).Round(time.Millisecond), last, live, edges, conns)
+	}
+	// ---- the routes carry: following next hops reaches the destination (one probe per live node, to its farthest reachable node).
+	// Tables alone cannot tell a live neighbour from an entry that outlived its session.
+	for _, u := range live {
+		et := exp[u]
+		far, fd := "", -1.0
+		var dsts []string
+		for v := range et.dist {
+			dsts = append(dsts, v)
+		}
+		sort.Strings(dsts)
+		for _, v := range dsts {
+			if et.dist[v] > fd {
+				far, fd = v, et.dist[v]
+			}
+		}
+		if far == "" {
+			continue
+		}
+		if msg := pingUntil(m.Node(u).N, far, 8*time.Second); msg != "" {
+			return vx.Violation("next-hops-reach", "C01/route-does-not-carry", "tables agree with the topology, but a ping from %s to %s (reachable at cost %v) gets no answer within 8 s: %s (live %v edges %v)", u, far, fd, msg, live, edges)
+		}
 	}
 	changed := !tablesEqual(exp0, exp)
 	tie, multihop := false, false
